@@ -38,6 +38,7 @@ type Record struct {
 	Sched      map[string]int64 `json:"sched,omitempty"`
 	NetMsgs    int              `json:"net_msgs"`
 	Sample     any              `json:"sample,omitempty"`
+	Ops        int              `json:"ops,omitempty"` // scenario-generated operations (minimised through cfg.op_skip)
 }
 
 // scenario is a complete run body executed inside the bubble by the root task.
@@ -106,8 +107,8 @@ func (w *World) teardown(rec *Record) {
 	// the stores' GC loops look at their context only once per tick
 	simrt.SleepFor(6 * time.Minute)
 	for _, t := range simrt.S.Tasks {
-		if t.Panic != "" {
-			w.violate("C15", "panic", "background-task:"+t.Origin, -1, "task %s panicked: %s", t.Name, t.Panic)
+		if t.Panic != "" && !w.taskPanicReported[t.ID] {
+			w.violate("C15", "panic", "background@"+t.PanicAt, -1, "task %s panicked: %s", t.Name, t.Panic)
 		}
 	}
 	for _, t := range simrt.Unfinished() {
@@ -121,6 +122,7 @@ func finishRecord(w *World, rec *Record, wantLog bool) {
 	rec.Faults = w.Faults
 	rec.Notes = append(rec.Notes, w.Notes...)
 	rec.NetMsgs = len(w.Net.Log)
+	rec.Ops = w.Ops
 	for s := range w.shapes {
 		rec.Shapes = append(rec.Shapes, s)
 	}
